@@ -52,6 +52,9 @@ type Handler struct {
 	// credentials required on every request when User != ""
 	User, Pass string
 
+	// KeepMainStream: readers always get the world's own stream, whatever publishers announce
+	KeepMainStream bool
+
 	// record side
 	recMu     sync.Mutex
 	recStream *gortsplib.ServerStream
@@ -171,7 +174,7 @@ func (h *Handler) OnDescribe(ctx *gortsplib.ServerHandlerOnDescribeCtx) (*base.R
 	h.recMu.Lock()
 	rs := h.recStream
 	h.recMu.Unlock()
-	if rs != nil {
+	if rs != nil && !(h.KeepMainStream && h.w.Stream != nil) {
 		return &base.Response{StatusCode: base.StatusOK}, rs, nil
 	}
 	if h.w.Stream == nil {
@@ -213,7 +216,7 @@ func (h *Handler) OnSetup(ctx *gortsplib.ServerHandlerOnSetupCtx) (*base.Respons
 	h.recMu.Lock()
 	rs := h.recStream
 	h.recMu.Unlock()
-	if rs != nil {
+	if rs != nil && !(h.KeepMainStream && h.w.Stream != nil) {
 		return &base.Response{StatusCode: base.StatusOK}, rs, nil
 	}
 	if h.w.Stream == nil {
@@ -408,6 +411,12 @@ func (w *World) Close() {
 	if w.Stream != nil {
 		w.Stream.Close()
 	}
+	w.H.recMu.Lock()
+	if w.H.recStream != nil {
+		w.H.recStream.Close()
+		w.H.recStream = nil
+	}
+	w.H.recMu.Unlock()
 	w.S.Close()
 }
 
